@@ -176,6 +176,7 @@ class Impl(object):
                     'pubchans': [hx(c).decode('utf-8') for c in r['pubchans']],
                     'subchans': [hx(c).decode('utf-8') for c in r['subchans']]}
             auth = Authenticator(creds)
+            self.creds = creds
         else:
             auth = ManualStore(self)
         self.server = BS.Server(auth, name=hx(cfg['name']).decode('utf-8'))
@@ -235,6 +236,17 @@ class Impl(object):
             self._guard(cid, conn.connection_made, t)
         elif k == 'data':
             self._guard(ev[1], self.conns[ev[1]].data_received, hx(ev[2]))
+        elif k == 'setrow':
+            # the operator changes the credential store while the broker runs (rotation, revocation, new user)
+            ident = hx(ev[1]).decode('utf-8')
+            if ev[2] is None:
+                self.creds.pop(ident, None)
+            else:
+                r = ev[2]
+                self.creds[ident] = {
+                    'secret': hx(r['secret']).decode('utf-8'), 'owner': hx(r['owner']).decode('utf-8'),
+                    'pubchans': [hx(c).decode('utf-8') for c in r['pubchans']],
+                    'subchans': [hx(c).decode('utf-8') for c in r['subchans']]}
         elif k == 'eof':
             t = self.tr[ev[1]]
             if not t.closing:
@@ -360,6 +372,13 @@ def model_lines(script, labels, chans):
         if k == 'dump':
             lines.append('b.dump %s %s' % (','.join('None' if l is None else hexin(l) for l in labels) or '.', hexlist(chans)))
             kinds.append('dump')
+        elif k == 'setrow':
+            if ev[2] is None:
+                lines.append('b.delrow %s' % ev[1])
+            else:
+                r = ev[2]
+                lines.append('b.setrow %s %s %s %s %s' % (ev[1], r['secret'], r['owner'], ','.join(r['pubchans']) or '.', ','.join(r['subchans']) or '.'))
+            kinds.append('ev')
         elif k == 'lookup_done':
             r = ev[3]
             if r[0] == 'row':
@@ -569,6 +588,12 @@ class Shadow(object):
             c = self.conns[ev[1]]
             c.stream += hx(ev[2])
             self.process(ev[1], exp)
+        elif k == 'setrow':
+            if ev[2] is None:
+                self.rows.pop(hx(ev[1]), None)
+            else:
+                self.rows[hx(ev[1])] = {kk: (hx(v) if isinstance(v, str) else [hx(c) for c in v]) for kk, v in ev[2].items()}
+            self.flags.add('store-changed')
         elif k == 'eof':
             c = self.conns[ev[1]]
             c.open = False
@@ -662,6 +687,8 @@ def run_script(script, drv, res, want_model=True):
     impl_obs = []
     viol = []
 
+    c02_flagged = set()
+
     def V(props, rule, what, key=None):
         viol.append((set(props), rule, what, key))
 
@@ -682,6 +709,17 @@ def run_script(script, drv, res, want_model=True):
             if ev[0] == 'dump':
                 impl_obs.append(impl.dump_line(labels, chans))
                 monitor_dump(impl, shadow, labels, chans, V, idx)
+            # C02 on the broker's STATE: a connection that has not presented a valid AUTH (spec oracle) holds no
+            # identity and no subscription, and is registered for no channel - whatever else it has sent
+            for cid, d in shadow.conns.items():
+                if d.ident is None and not d.gone and cid in impl.conns and cid not in c02_flagged:
+                    c = impl.conns[cid]
+                    if c.ak is not None:
+                        c02_flagged.add(cid)
+                        V({'C02'}, 'identity-without-auth', 'event %d %r: connection %d holds identity %r although it never presented a valid OP_AUTH for its nonce' % (idx, ev[:2], cid, c.ak), 'identity-without-auth')
+                    elif c.active_subscriptions or any(any(m is c for m in members) for members in impl.server.subscriptions.values()):
+                        c02_flagged.add(cid)
+                        V({'C02'}, 'acted-before-auth', 'event %d %r: connection %d never presented a valid OP_AUTH and the broker has registered a subscription for it (a frame it sent was acted on)' % (idx, ev[:2], cid), 'acted-before-auth')
             # ---- monitors on the delta of this event
             for cid, t in impl.tr.items():
                 new = t.log[marks.get(cid, 0):]
@@ -726,7 +764,7 @@ def run_script(script, drv, res, want_model=True):
                     if kind == 'w' and parse_one(payload) is None:
                         V({'C01', 'C05'}, 'malformed-write', 'event %d: broker wrote bytes that are not one frame to %d' % (idx, cid))
                 # a clean connection is never closed or crashed by somebody else's event
-                tgt = ev[1] if len(ev) > 1 and ev[0] not in ('advance', 'dump') else None
+                tgt = ev[1] if len(ev) > 1 and ev[0] not in ('advance', 'dump', 'setrow') else None
                 due_now = ev[0] == 'advance' and d.deadline is not None and d.deadline <= now
                 if cid != tgt and (t.closing and not closing_before.get(cid, False)) and not due_now:
                     V({'C10', 'C09', 'C15'}, 'closed-by-other', 'event %d %r closed connection %d' % (idx, ev[:2], cid))
@@ -920,15 +958,52 @@ class Gen(object):
         self.next_id = 1
         self.nonce = {}
         self.ident = {}     # what the client believes it is
+        self.held = {}      # cid -> channels it ever asked for (under any identity it had)
+        self.stale = {}     # ident -> secrets the store held for it earlier
+        self.revoked = {}   # ident -> row it had when it was removed from the store
         self.tail = {}      # bytes cut off from the previous data event, still to be sent
         self.subs = {}
         self.bigleft = 2 if tier == 'thorough' else 1
 
+    def store_change(self):
+        """an operator's edit of the credential store: rotate a secret, revoke or (re)instate an identity,
+        change its channel lists"""
+        rng = self.rng
+        gone = [i for i in self.revoked if i not in self.rows]
+        k = rng.choice(['rotate', 'rotate', 'revoke', 'acl', 'reinstate' if gone else 'rotate'])
+        if k == 'reinstate':
+            ident = rng.choice(gone)
+            row = dict(self.revoked[ident])
+        else:
+            ident = rng.choice(sorted(self.rows))
+            row = dict(self.rows[ident])
+        self.stale.setdefault(ident, []).append(row['secret'])
+        if k == 'rotate':
+            row['secret'] = row['secret'] + rng.choice(['2', '-new', 'x'])
+        elif k == 'acl':
+            row['pub'] = rng.sample(['c1', 'c2', 'c3'], rng.randint(0, 2))
+            row['sub'] = rng.sample(['c1', 'c2', 'c3'], rng.randint(0, 2))
+        h = ident.encode().hex() or '-'
+        if k == 'revoke':
+            self.revoked[ident] = self.rows.pop(ident)
+            return ['setrow', h, None]
+        self.rows[ident] = row
+        return ['setrow', h, {'secret': row['secret'].encode().hex(), 'owner': b'o'.hex(),
+                              'pubchans': [c.encode().hex() or '-' for c in row['pub']], 'subchans': [c.encode().hex() or '-' for c in row['sub']]}]
+
     def auth_bytes(self, cid, valid=True):
         rng = self.rng
-        ident = rng.choice(list(self.rows)) if (valid or rng.random() < 0.5) else rng.choice(IDENTS + ['nobody'])
+        if not self.rows:
+            valid = False
+        ident = rng.choice(list(self.rows)) if (self.rows and (valid or rng.random() < 0.5)) else rng.choice(IDENTS + ['nobody'])
         secret = self.rows.get(ident, {}).get('secret', 'x')
         digest = hashlib.sha1(self.nonce[cid] + secret.encode()).digest()
+        if not valid and self.stale and rng.random() < 0.5:
+            # the secret the store USED to hold for an identity (rotated away or revoked since)
+            ident = rng.choice(sorted(self.stale))
+            old = rng.choice(self.stale[ident])
+            if self.rows.get(ident, {}).get('secret') != old:
+                return enc(P.OP_AUTH, p8(ident.encode()) + hashlib.sha1(self.nonce[cid] + old.encode()).digest())
         if not valid:
             k = rng.choice(['wrong-secret', 'prefix', 'empty', '19', '21', 'other-nonce', 'other-ident', 'unknown'])
             if k == 'wrong-secret':
@@ -975,7 +1050,7 @@ class Gen(object):
                     out += self.auth_bytes(cid, valid=rng.random() > (0.5 if prof == 'preauth' else 0.1))
                 me = self.ident.get(cid)
                 continue
-            row = self.rows[me]
+            row = self.rows.get(me) or self.revoked.get(me) or {'secret': 'x', 'pub': [], 'sub': []}
             allc = ['c1', 'c2', 'c3']
             if r < bad:
                 k = rng.choice(['spoof', 'forbidden-pub', 'forbidden-sub', 'garbage', 'lattice', 'info', 'error', 'short', 'badutf', 'reauth-bad'])
@@ -1003,15 +1078,19 @@ class Gen(object):
                 else:
                     out += self.auth_bytes(cid, valid=False)
                 continue
-            wsub = {'subs': 0.6, 'fanout': 0.3, 'gauges': 0.5, 'window': 0.3}.get(prof, 0.35)
+            wsub = {'subs': 0.6, 'fanout': 0.3, 'gauges': 0.5, 'window': 0.3, 'reauth': 0.45}.get(prof, 0.35)
             if r < bad + wsub:
                 ch = rng.choice(row['sub'] or allc)
                 if prof in ('window', 'fanout') and 'c1' in row['sub'] and rng.random() < 0.6:
                     ch = 'c1'
-                if rng.random() < (0.45 if prof in ('subs', 'gauges') else (0.1 if prof == 'window' else 0.25)):
+                if rng.random() < (0.45 if prof in ('subs', 'gauges', 'reauth') else (0.1 if prof == 'window' else 0.25)):
+                    # also channels asked for under an EARLIER identity of this connection (UNSUBSCRIBE has no ACL)
+                    if self.held.get(cid) and rng.random() < 0.5:
+                        ch = rng.choice(sorted(self.held[cid]))
                     for _ in range(rng.choice([1, 1, 2, 3])):
                         out += enc(P.OP_UNSUBSCRIBE, p8(me.encode()) + ch.encode())
                 else:
+                    self.held.setdefault(cid, set()).add(ch)
                     for _ in range(rng.choice([1, 1, 1, 2, 3]) if prof in ('subs', 'gauges', 'loss') else 1):
                         out += enc(P.OP_SUBSCRIBE, p8(rng.choice([me, me, 'whoever']).encode()) + ch.encode())
             elif r < bad + wsub + (0.2 if prof == 'reauth' else 0.08 if prof in ('adversary', 'gauges', 'spoof') else 0.04):
@@ -1066,6 +1145,9 @@ def gen_script(rng, tier, profile):
                 nonce = bytes(rng.getrandbits(8) for _ in range(4)) if rng.random() < 0.9 else rng.choice([b'\x00\x00\x00\x00', b'\x01a\x01c'])
                 g.nonce[cid] = nonce
                 do(['connect', cid, nonce.hex()])
+                continue
+            if mode == 'sync' and g.rows and rng.random() < {'preauth': 0.08, 'reauth': 0.08, 'spoof': 0.06, 'acl': 0.06, 'adversary': 0.04}.get(profile, 0.0):
+                do(g.store_change())
                 continue
             pend = [(cid, i) for cid, futs in impl.pending.items() for i in range(len(futs))]
             if pend and r < 0.5:
@@ -1368,7 +1450,7 @@ PROFILES = {
     'C02': ['preauth', 'preauth', 'adversary'],
     'C03': ['spoof', 'reauth', 'acl', 'spoof'],
     'C04': ['acl', 'window', 'adversary', 'reauth', 'loss'],
-    'C08': ['subs', 'subs', 'gauges'],
+    'C08': ['subs', 'reauth', 'gauges', 'subs'],
     'C09': ['loss', 'window', 'gauges', 'async', 'fanout'],
     'C10': ['adversary', 'window', 'loss', 'stall', 'adversary'],
     'C14': ['async'],
@@ -1387,7 +1469,9 @@ def run(tier, seed, drv, prop=None, n=None):
         profile = profiles[k % len(profiles)]
         try:
             script = gen_script(rng, tier, profile)
-            flags, viol = run_script(script, drv, res)
+            # once the correspondence is known to be broken, the remaining histories are still run on the
+            # implementation and judged by the monitors: the search for a failing input goes on
+            flags, viol = run_script(script, drv if len(res.disagreements) <= 10 else None, res)
         except Timeout:
             res.violation(prop, 'termination', 'the broker did not finish handling an event within 20 s while generating a history', {'section': 'generator-timeout', 'profile': profile, 'k': k})
             continue
@@ -1397,7 +1481,7 @@ def run(tier, seed, drv, prop=None, n=None):
             res.nontriv([hashlib.sha1(json.dumps(script['events']).encode()).hexdigest()])
         if len(res.samples) < 3 and 'publish-with-recipients' in flags:
             res.sample({'cfg': script['cfg'], 'events': [e if e[0] != 'data' or len(e[2]) < 200 else [e[0], e[1], e[2][:60] + '...'] for e in script['events'][:25]]})
-        if len(res.violations) > 50 or len(res.disagreements) > 10:
+        if len(res.violations) > 50:
             break
     # crash-point sweep: connections lost at chosen points of freshly generated base histories
     if prop in ('C09', 'C10', 'C14', 'C19', 'C01', 'C04'):
@@ -1405,10 +1489,10 @@ def run(tier, seed, drv, prop=None, n=None):
         for k in range(nbase):
             base = gen_script(rng, 'quick', 'async' if (k % 3 == 0 and prop != 'C15') else profiles[k % len(profiles)])
             for var in loss_sweep(base, rng, tier, per):
-                flags, viol = run_script(var, drv, res)
+                flags, viol = run_script(var, drv if len(res.disagreements) <= 10 else None, res)
                 res.note('loss-sweep.variants')
                 res.nontriv([hashlib.sha1(json.dumps(var['events']).encode()).hexdigest()])
-                if len(res.violations) > 50 or len(res.disagreements) > 10:
+                if len(res.violations) > 50:
                     break
     if res.disagreements and not [v for v in res.violations if v['property'] == prop]:
         directed_search(res, drv)
